@@ -36,6 +36,11 @@ fn cardinal_or_ordinal(n: u64, c: &mut dyn Chooser, ord: bool) -> Vec<String> {
     let style = c.pick(4);
     let mut out = vec![];
     for (i, name) in [(3usize, "miljard"), (2, "miljoen")] {
+        if g[i] == 1 && out.is_empty() && c.pick(6) == 5 {
+            // bare scale noun, implicit one ("de miljoenste bezoeker")
+            out.push(s(name));
+            continue;
+        }
         if g[i] > 0 { let mut m = vec![]; group(g[i], c, &mut m);
             let mut w = join(m, match style { 0 | 1 => 0, 2 => 2, _ => 3 });
             if style <= 1 && c.pick(4) == 3 { let l = w.pop().unwrap(); w.push(format!("{}{}", l, name)); } else { w.push(s(name)); }
